@@ -7,6 +7,7 @@ import (
 	"encoding/hex"
 	"encoding/json"
 	"fmt"
+	"github.com/google/uuid"
 	"io"
 	"math/rand"
 	"net/http"
@@ -16,6 +17,7 @@ import (
 	"runtime"
 	"strings"
 	"sync"
+	"sync/atomic"
 	"time"
 
 	jsonrpc "github.com/filecoin-project/go-jsonrpc"
@@ -72,6 +74,7 @@ type c20Env struct {
 	uuidCall map[string]int
 	order    string
 	upDone   sync.WaitGroup
+	skew     time.Duration // order "tie": > 0 delays the request, < 0 the upload, by that much after both have arrived
 	barrier  chan struct{} // closed when every handler of a barrier scenario has started
 	need     int
 	arrived  int
@@ -108,6 +111,12 @@ func (e *c20Env) ch(m map[string]chan struct{}, u string) chan struct{} {
 func closeOnce(c chan struct{}) {
 	defer func() { recover() }()
 	close(c)
+}
+
+// spin busy-waits for d (sleeping would hand the processor over and blur a microsecond-scale offset).
+func spin(d time.Duration) {
+	for t0 := time.Now(); time.Since(t0) < d; {
+	}
 }
 
 type c20H struct{ env *c20Env }
@@ -285,6 +294,9 @@ func c20UUID(body []byte) string {
 func c20Scenario(rng *rand.Rand, sc int, transport, order string, calls []map[string]interface{}, w *TraceWriter) {
 	env := &c20Env{log: &c20Log{}, upSeen: map[string]chan struct{}{}, rpcSeen: map[string]chan struct{}{}, uuidCall: map[string]int{}, order: order,
 		barrier: make(chan struct{})}
+	if order == "tie" {
+		env.skew = time.Duration(rng.Intn(161)-80) * time.Microsecond
+	}
 	for _, c := range calls {
 		if strings.HasPrefix(c["pattern"].(string), "barrier+") {
 			env.need++
@@ -300,6 +312,15 @@ func c20Scenario(rng *rand.Rand, sc int, transport, order string, calls []map[st
 			req.Body = io.NopCloser(bytes.NewReader(b))
 			if u := c20UUID(b); u != "" {
 				closeOnce(env.ch(env.rpcSeen, u))
+				if env.order == "tie" { // request and upload enter the library at (almost) the same instant
+					select {
+					case <-env.ch(env.upSeen, u):
+					case <-time.After(2 * time.Second):
+					}
+					if env.skew > 0 {
+						spin(env.skew)
+					}
+				}
 			}
 		}
 		srv.ServeHTTP(rw, req)
@@ -310,6 +331,15 @@ func c20Scenario(rng *rand.Rand, sc int, transport, order string, calls []map[st
 		defer env.upDone.Done()
 		env.log.add(c20Ev{"ev": "uparrive", "u": u})
 		closeOnce(env.ch(env.upSeen, u))
+		if env.order == "tie" {
+			select {
+			case <-env.ch(env.rpcSeen, u):
+			case <-time.After(2 * time.Second):
+			}
+			if env.skew < 0 {
+				spin(-env.skew)
+			}
+		}
 		if env.order == "decfirst" {
 			select {
 			case <-env.ch(env.rpcSeen, u):
@@ -428,6 +458,11 @@ func c20Scenario(rng *rand.Rand, sc int, transport, order string, calls []map[st
 	case <-cd:
 	case <-time.After(3 * time.Second):
 	}
+	c20Emit(env, sc, transport, order, payloads, w)
+}
+
+// c20Emit writes the events of one finished scenario (reset line with the trace-derived constants, the log, quiesce).
+func c20Emit(env *c20Env, sc int, transport, order string, payloads map[int][]byte, w *TraceWriter) {
 	env.log.mu.Lock()
 	evs := append([]c20Ev{}, env.log.evs...)
 	env.log.mu.Unlock()
@@ -461,6 +496,83 @@ func c20Scenario(rng *rand.Rand, sc int, transport, order string, calls []map[st
 	w.Emit(c20Ev{"ev": "quiesce"})
 }
 
+// c20TieRounds: the upload and the request naming it enter the library's rendez-vous at the same moment, in process (no HTTP
+// stack in between), behind a spin barrier, with offsets swept in quarter-microsecond steps. Rounds in which the call does not
+// get its bytes are written out as scenarios (plus the first few rounds as samples); the others only count.
+func c20TieRounds(rng *rand.Rand, sc int, rounds int, w *TraceWriter) int {
+	bad := 0
+	for r := 0; r < rounds; r++ {
+		env := &c20Env{log: &c20Log{}, upSeen: map[string]chan struct{}{}, rpcSeen: map[string]chan struct{}{}, uuidCall: map[string]int{}, order: "tie",
+			barrier: make(chan struct{})}
+		upHandler, opt := httpio.ReaderParamDecoder()
+		srv := jsonrpc.NewServer(opt)
+		srv.Register("R", &c20H{env})
+		id := uuid.New().String()
+		data := make([]byte, 1+rng.Intn(64))
+		rng.Read(data)
+		env.log.add(c20Ev{"ev": "callstart", "c": 1, "len": len(data), "digest": digest(data), "pattern": "readall"})
+		skew := time.Duration((r%41)-20) * 250 * time.Nanosecond
+		var ready int32
+		meet := func(delay time.Duration) {
+			atomic.AddInt32(&ready, 1)
+			for atomic.LoadInt32(&ready) < 2 {
+			}
+			if delay > 0 {
+				spin(delay)
+			}
+		}
+		var wg sync.WaitGroup
+		wg.Add(2)
+		go func() { // the upload
+			defer wg.Done()
+			ctx, cancel := context.WithTimeout(context.Background(), 400*time.Millisecond)
+			defer cancel()
+			req := httptest.NewRequest("POST", "/push/"+id, bytes.NewReader(data)).WithContext(ctx)
+			req.Body = &tagBody{req.Body, id}
+			rec := httptest.NewRecorder()
+			env.log.add(c20Ev{"ev": "uparrive", "u": id})
+			meet(-skew)
+			upHandler(rec, req)
+			env.log.add(c20Ev{"ev": "upreturn", "u": id, "status": rec.Code})
+		}()
+		go func() { // the request
+			defer wg.Done()
+			ctx, cancel := context.WithTimeout(context.Background(), 400*time.Millisecond)
+			defer cancel()
+			body := fmt.Sprintf(`{"jsonrpc":"2.0","id":1,"method":"R.Consume","params":[1,"readall",%q]}`, id)
+			var out bytes.Buffer
+			meet(skew)
+			srv.HandleRequest(ctx, strings.NewReader(body), &out)
+			var resp struct {
+				Result string          `json:"result"`
+				Error  json.RawMessage `json:"error"`
+			}
+			if json.Unmarshal(out.Bytes(), &resp) == nil && len(resp.Error) == 0 && resp.Result != "" {
+				env.log.add(c20Ev{"ev": "callend", "c": 1, "outcome": "ok", "digest": resp.Result})
+			} else {
+				env.log.add(c20Ev{"ev": "callend", "c": 1, "outcome": "herr", "err": out.String()})
+			}
+		}()
+		wg.Wait()
+		ok := false
+		env.log.mu.Lock()
+		for _, e := range env.log.evs {
+			if e["ev"] == "callend" && e["outcome"] == "ok" && e["digest"] == digest(data) {
+				ok = true
+			}
+		}
+		env.log.mu.Unlock()
+		if !ok {
+			bad++
+		}
+		if !ok && bad <= 3 || r < 3 {
+			c20Emit(env, sc, "inproc", "tie", map[int][]byte{1: data}, w)
+			sc++
+		}
+	}
+	return bad
+}
+
 type statusRec struct {
 	http.ResponseWriter
 	code int
@@ -478,6 +590,10 @@ func runC20(env *Env) error {
 		var calls []map[string]interface{}
 		for _, c := range sc["calls"].([]interface{}) {
 			calls = append(calls, c.(map[string]interface{}))
+		}
+		if n, ok := sc["tierounds"].(float64); ok {
+			c20TieRounds(rng, 100000+i*10, int(n), env.W)
+			continue
 		}
 		if p, ok := sc["procs"].(float64); ok && p >= 1 { // a single P makes per-P caches (sync.Pool) shared by everything
 			old := runtime.GOMAXPROCS(int(p))
